@@ -36,6 +36,10 @@ def run_shard(spec, ctx):
     from vf.checks.c15 import install_contract
 
     install_contract()
+    if spec["kind"] == "toy" and spec["k"] == 1:
+        from vf.checks.c01 import _copy_fork_isolation
+
+        _copy_fork_isolation(spec, ctx)  # rejections under the COPY fork strategy when the caller recycles the replaced buffer
     if spec["kind"] in ("toy", "model"):
         _episodes(spec, ctx)
     else:
